@@ -402,3 +402,5 @@ SUBS = [
     Sub("normalize", lambda tier: normalize_cases(tier), check_normalize, quick=500, thorough=3000),
     Sub("refusals", lambda tier: refusal_cases(tier), check_refusals, quick=300, thorough=1500),
 ]
+
+RULE += ' Also: numpy integer scalars whose square leaves their own type (int8, int16, uint8, uint16, int32); contents scaled by 2^-40 / 2^-70 / 2^40 under normalisation; zero-dimensional arrays as factors (refused).'
